@@ -1,10 +1,25 @@
 package main
 
+// C18 driver: runs the real signer.PluginSigner (Sign and SignBlob) against a
+// scripted plugin.SignPlugin that holds real keys for the six key specs and
+// answers adversarially; prints (plugin answers + library facts, observation)
+// cases for C18_Model.
+
 import (
+	"bytes"
 	"context"
+	"crypto/x509"
+	"encoding/json"
+	"errors"
 	"fmt"
+	"os"
+	"path/filepath"
+	"sort"
+	"strings"
 	"time"
 
+	"github.com/notaryproject/notation-core-go/signature"
+	nx509 "github.com/notaryproject/notation-core-go/x509"
 	"github.com/notaryproject/notation-go"
 	"github.com/notaryproject/notation-go/signer"
 	pl "github.com/notaryproject/notation-plugin-framework-go/plugin"
@@ -13,71 +28,770 @@ import (
 	. "vh/kit"
 )
 
-type fake struct {
-	chain   Chain
-	payload []byte
+func main() { Main("c18", runC18) }
+
+// ---------- the script of one case ----------
+
+type script struct {
+	Family string `json:"family"`
+	Blob   bool   `json:"sign_blob"`
+	MT     string `json:"requested_envelope_type"`
+	KeyID  string `json:"key_id"`
+	Desc   reqDesc `json:"descriptor"`
+
+	MetaErr bool `json:"metadata_error,omitempty"`
+	CapRaw  bool `json:"cap_raw"`
+	CapEnv  bool `json:"cap_envelope"`
+
+	DKErr   bool   `json:"describe_key_error,omitempty"`
+	DKKeyID string `json:"describe_key_keyid"`
+	DKSpec  string `json:"describe_key_keyspec"`
+
+	// generate-signature
+	GSErr     bool   `json:"gensig_error,omitempty"`
+	GSKeyID   string `json:"gensig_keyid,omitempty"`
+	GSSigner  string `json:"gensig_signer,omitempty"`  // identity that signs, "spec/variant"
+	GSChain   string `json:"gensig_chain,omitempty"`   // own | other | otherspec | leafonly | reversed | empty | garbage | expired | selfsigned | rootonly
+	GSHash    string `json:"gensig_hash,omitempty"`    // asked | other
+	GSCorrupt string `json:"gensig_corrupt,omitempty"` // "" | flip | empty | truncate
+
+	// generate-envelope
+	GEErr     bool     `json:"genenv_error,omitempty"`
+	GEEcho    string   `json:"genenv_type_echo,omitempty"` // "=" means the requested type
+	GEFormat  string   `json:"genenv_real_format,omitempty"`
+	GESigner  string   `json:"genenv_signer,omitempty"`
+	GEChain   string   `json:"genenv_chain,omitempty"` // own | other
+	GECtype   string   `json:"genenv_content_type,omitempty"`
+	GECorrupt string   `json:"genenv_corrupt,omitempty"` // "" | flip | truncate | garbage | empty
+	Payload   string   `json:"genenv_payload,omitempty"` // payload bytes the plugin signs ("" = the request's payload)
+	Ops       []string `json:"payload_edits,omitempty"`
+
+	// observation
+	Result string `json:"obs_result"`
+	ErrMsg string `json:"obs_error,omitempty"`
 }
 
-func (f *fake) GetMetadata(ctx context.Context, req *pl.GetMetadataRequest) (*pl.GetMetadataResponse, error) {
-	return &pl.GetMetadataResponse{Name: "p", Version: "1.0.0", Capabilities: []pl.Capability{pl.CapabilityEnvelopeGenerator}}, nil
-}
-func (f *fake) DescribeKey(ctx context.Context, req *pl.DescribeKeyRequest) (*pl.DescribeKeyResponse, error) {
-	return nil, fmt.Errorf("no")
-}
-func (f *fake) GenerateSignature(ctx context.Context, req *pl.GenerateSignatureRequest) (*pl.GenerateSignatureResponse, error) {
-	return nil, fmt.Errorf("no")
-}
-func (f *fake) GenerateEnvelope(ctx context.Context, req *pl.GenerateEnvelopeRequest) (*pl.GenerateEnvelopeResponse, error) {
-	p := f.payload
-	if p == nil {
-		p = req.Payload
-	}
-	fmt.Printf("   request payload: %s\n", req.Payload)
-	env, err := SignEnvelope(EnvSpec{Format: req.SignatureEnvelopeType, Chain: f.chain, Payload: p})
-	if err != nil {
-		return nil, err
-	}
-	return &pl.GenerateEnvelopeResponse{SignatureEnvelope: env, SignatureEnvelopeType: req.SignatureEnvelopeType}, nil
+var (
+	errMeta     = errors.New("vh-meta-error")
+	errDescribe = errors.New("vh-describe-error")
+	errGenSig   = errors.New("vh-gensig-error")
+	errGenEnv   = errors.New("vh-genenv-error")
+)
+
+// ---------- the scripted plugin ----------
+
+type gsFacts struct {
+	called                         bool
+	keyID                          string
+	chainParse                     bool
+	chainLen                       int
+	sigEmpty, chainValid, sigOK    bool
+	leafAlg                        signature.Algorithm
+	reqKeySpec, reqHash            string
+	chainDER                       [][]byte
 }
 
-func main() {
-	now := time.Now()
-	chain := NewChain("probe", 2, now.Add(-48*time.Hour), now.Add(48*time.Hour))
-	desc := ocispec.Descriptor{MediaType: "application/vnd.oci.image.manifest.v1+json", Digest: digest.FromString("x"), Size: 528, Annotations: map[string]string{"k": "v"}}
-	good := fmt.Sprintf(`{"mediaType":%q,"digest":%q,"size":528,"annotations":{"k":"v"}`, desc.MediaType, desc.Digest)
-	for _, p := range []string{
-		"",
-		`{"targetArtifact":` + good + `}}`,
-		`{"TargetArtifact":` + good + `}}`,
-		`{"targetArtifact":` + good + `,"evil":"x"}}`,
-		`{"targetArtifact":` + good + `,"evil":"x"},"targetArtifact":null}`,
-		`{"targetArtifact":` + good + `,"evil":"x"},"targetArtifact":{}}`,
-		`{"targetArtifact":` + good + `},"targetArtifact":7}`,
-		`{"targetArtifact":` + good + `},"extra":1,"extra":2}`,
-		`{"targetArtifact":` + good + `,"platform":{"zzz":1}}}`,
-		`{"targetArtifact":` + good + `,"data":"!!"}}`,
-		`{"targetArtifact":` + good + `,"data":[1,2,3]}}`,
-		`{"targetArtifact":` + good + `,"data":[1,2,300]}}`,
-		`{"targetArtifact":` + good + `,"annotations":null}}`,
-		`{"targetArtifact":` + good + `,"annotations":{"k2":"v2"}}}`,
-		`{"targetArtifact":` + good + `,"annotations":{"k":null}}}`,
-		`null`,
-	} {
-		for _, mt := range []string{MtCOSE, MtJWS} {
-			f := &fake{chain: chain}
-			if p != "" {
-				f.payload = []byte(p)
+type geFacts struct {
+	called        bool
+	failed        bool // the plugin could not build what the script asked for: it answered with an error
+	echo          string
+	parse, verify bool
+	ctype         string
+	payload       []byte
+	envBytes      []byte
+}
+
+type plugin struct {
+	s   *script
+	now time.Time
+	gs  gsFacts
+	ge  geFacts
+}
+
+func (p *plugin) GetMetadata(ctx context.Context, req *pl.GetMetadataRequest) (*pl.GetMetadataResponse, error) {
+	if p.s.MetaErr {
+		return nil, errMeta
+	}
+	caps := []pl.Capability{pl.CapabilityTrustedIdentityVerifier}
+	if p.s.CapEnv {
+		caps = append(caps, pl.CapabilityEnvelopeGenerator)
+	}
+	if p.s.CapRaw {
+		caps = append(caps, pl.CapabilitySignatureGenerator)
+	}
+	return &pl.GetMetadataResponse{Name: "vh", Version: "1.0.0", Description: "d", URL: "u", SupportedContractVersions: []string{"1.0"}, Capabilities: caps}, nil
+}
+
+func (p *plugin) DescribeKey(ctx context.Context, req *pl.DescribeKeyRequest) (*pl.DescribeKeyResponse, error) {
+	if p.s.DKErr {
+		return nil, errDescribe
+	}
+	return &pl.DescribeKeyResponse{KeyID: p.s.DKKeyID, KeySpec: pl.KeySpec(p.s.DKSpec)}, nil
+}
+
+func identByName(n string) *identity {
+	if n == "selfsigned" {
+		return selfSigned
+	}
+	return identities[n]
+}
+
+func chainFor(kind string, id *identity) [][]byte {
+	der := func(c Chain) [][]byte {
+		var out [][]byte
+		for _, x := range c {
+			out = append(out, x.C.Raw)
+		}
+		return out
+	}
+	switch kind {
+	case "own":
+		return der(id.chain)
+	case "other":
+		return der(ident(id.spec, 1-id.variant).chain)
+	case "otherspec":
+		for _, s := range c18Specs {
+			if s != id.spec {
+				return der(ident(s, 0).chain)
 			}
-			s, _ := signer.NewPluginSigner(f, "key1", nil)
-			func() {
-				defer func() {
-					if r := recover(); r != nil {
-						fmt.Println("   PANIC", r)
-					}
-				}()
-				sig, _, err := s.Sign(context.Background(), desc, notation.SignerSignOptions{SignatureMediaType: mt})
-				fmt.Printf("%s %s -> sig=%d err=%v\n", mt, p, len(sig), err)
-			}()
+		}
+	case "leafonly":
+		return der(id.chain[:1])
+	case "rootonly":
+		return der(id.chain[1:])
+	case "reversed":
+		return der(Chain{id.chain[1], id.chain[0]})
+	case "empty":
+		return [][]byte{}
+	case "garbage":
+		return [][]byte{id.chain[0].C.Raw[:40], id.chain[1].C.Raw}
+	case "expired":
+		return der(expiredChain)
+	case "selfsigned":
+		return der(selfSigned.chain)
+	}
+	panic("chain kind " + kind)
+}
+
+func (p *plugin) GenerateSignature(ctx context.Context, req *pl.GenerateSignatureRequest) (*pl.GenerateSignatureResponse, error) {
+	f := &p.gs
+	f.called = true
+	f.reqKeySpec, f.reqHash = string(req.KeySpec), string(req.Hash)
+	if p.s.GSErr {
+		return nil, errGenSig
+	}
+	id := identByName(p.s.GSSigner)
+	h := id.alg.Hash()
+	if p.s.GSHash == "other" {
+		for _, x := range []signature.Algorithm{signature.AlgorithmES256, signature.AlgorithmES384, signature.AlgorithmES512} {
+			if x.Hash() != h {
+				h = x.Hash()
+				break
+			}
 		}
 	}
+	sig := signRaw(id.key, h, req.Payload)
+	switch p.s.GSCorrupt {
+	case "flip":
+		sig[len(sig)/2] ^= 0x40
+	case "empty":
+		sig = []byte{}
+	case "truncate":
+		sig = sig[:len(sig)-1]
+	}
+	chain := chainFor(p.s.GSChain, id)
+	// facts, asked from crypto/x509, notation-core-go and crypto
+	f.keyID = p.s.GSKeyID
+	f.chainDER = chain
+	f.chainLen = len(chain)
+	f.sigEmpty = len(sig) == 0
+	f.chainParse = true
+	var certs []*x509.Certificate
+	for _, d := range chain {
+		c, err := x509.ParseCertificate(d)
+		if err != nil {
+			f.chainParse = false
+			break
+		}
+		certs = append(certs, c)
+	}
+	if f.chainParse && len(certs) > 0 {
+		t := time.Now()
+		f.chainValid = nx509.ValidateCodeSigningCertChain(certs, &t) == nil && nx509.ValidateCodeSigningCertChain(certs, nil) == nil
+		if ks, err := signature.ExtractKeySpec(certs[0]); err == nil {
+			f.leafAlg = ks.SignatureAlgorithm()
+			f.sigOK = verifyRaw(certs[0].PublicKey, f.leafAlg, req.Payload, sig)
+		}
+	}
+	return &pl.GenerateSignatureResponse{KeyID: p.s.GSKeyID, Signature: sig, SigningAlgorithm: "unused", CertificateChain: chain}, nil
+}
+
+func (p *plugin) GenerateEnvelope(ctx context.Context, req *pl.GenerateEnvelopeRequest) (*pl.GenerateEnvelopeResponse, error) {
+	f := &p.ge
+	f.called = true
+	if p.s.GEErr {
+		f.failed = true
+		return nil, errGenEnv
+	}
+	payload := req.Payload
+	if p.s.Payload != "" {
+		payload = []byte(p.s.Payload)
+	}
+	id := identByName(p.s.GESigner)
+	chain := id.chain
+	if p.s.GEChain == "other" {
+		chain = ident(id.spec, 1-id.variant).chain
+	}
+	var env []byte
+	if p.s.GECorrupt == "garbage" {
+		env = []byte("not an envelope")
+	} else if p.s.GECorrupt == "empty" {
+		env = []byte{}
+	} else {
+		var err error
+		env, err = buildEnvelope(p.s.GEFormat, id, chain, payload, p.s.GECtype, p.now)
+		if err != nil {
+			f.failed = true
+			return nil, errGenEnv
+		}
+		switch p.s.GECorrupt {
+		case "flip":
+			env = corruptSignature(p.s.GEFormat, env)
+		case "truncate":
+			env = env[:len(env)-7]
+		}
+	}
+	f.echo = p.s.GEEcho
+	if f.echo == "=" {
+		f.echo = req.SignatureEnvelopeType
+	}
+	f.envBytes = env
+	// facts, asked from notation-core-go for the type the signer requested
+	if e, err := signature.ParseEnvelope(p.s.MT, env); err == nil {
+		f.parse = true
+		if c, err := e.Verify(); err == nil {
+			f.verify = true
+			f.ctype = c.Payload.ContentType
+			f.payload = c.Payload.Content
+		}
+	}
+	return &pl.GenerateEnvelopeResponse{SignatureEnvelope: env, SignatureEnvelopeType: f.echo, Annotations: map[string]string{"a": "b"}}, nil
+}
+
+// corruptSignature flips one bit inside the signature value of the envelope.
+func corruptSignature(format string, env []byte) []byte {
+	out := append([]byte{}, env...)
+	if format == MtJWS {
+		var e jwsEnv
+		if json.Unmarshal(env, &e) == nil && len(e.Signature) > 10 {
+			b := []byte(e.Signature)
+			if b[5] == 'A' {
+				b[5] = 'B'
+			} else {
+				b[5] = 'A'
+			}
+			e.Signature = string(b)
+			out, _ = json.Marshal(e)
+			return out
+		}
+	}
+	// COSE_Sign1: the signature is the last byte string
+	out[len(out)-5] ^= 0x10
+	return out
+}
+
+// ---------- running one case ----------
+
+func classify(err error, envPath bool) string {
+	msg := err.Error()
+	for _, t := range []struct{ sub, cls string }{
+		{"vh-meta-error", "EMeta"}, {"vh-describe-error", "EDescribe"}, {"vh-gensig-error", "EGenSig"}, {"vh-genenv-error", "EGenEnv"},
+		{"plugin does not have signing capabilities", "ENoCap"},
+		{"keyID in describeKey response", "EKeyId"}, {"unknown key spec", "EKeySpec"},
+		{"keyID in generateSignature response", "EKeyId2"},
+		{"signatureEnvelopeType in generateEnvelope response", "EEcho"},
+		{"generated signature failed verification", "EVerify"},
+		{"payload content type", "ECtype"},
+		{"signed envelope payload can't be unmarshalled", "EUnmarshal"},
+		{"during signing descriptor subject has changed", "EDescChanged"},
+		{"unknown attributes were added", "EUnknownAttr"},
+	} {
+		if strings.Contains(msg, t.sub) {
+			return t.cls
+		}
+	}
+	var uf *signature.UnsupportedSignatureFormatError
+	if errors.As(err, &uf) {
+		return "EFormat"
+	}
+	if !envPath && (strings.Contains(msg, "x509: ") || strings.Contains(msg, "asn1: ")) && !strings.Contains(msg, "certificate-chain") {
+		return "EChainParse"
+	}
+	var is *signature.InvalidSignatureError
+	var ir *signature.InvalidSignRequestError
+	if errors.As(err, &is) || errors.As(err, &ir) {
+		if envPath {
+			return "EParse"
+		}
+		return "ECore"
+	}
+	return "EOther"
+}
+
+type payloadView struct {
+	TargetArtifact ocispec.Descriptor `json:"targetArtifact"`
+}
+
+func coqAnn(m map[string]string) string { return CMap(m) }
+
+func digestBits(a digest.Algorithm) int64 {
+	switch a {
+	case digest.SHA256:
+		return 256
+	case digest.SHA384:
+		return 384
+	case digest.SHA512:
+		return 512
+	}
+	return 1
+}
+
+// runCase executes the script on the real signer and returns the Gallina term.
+func runCase(id int64, s *script, now time.Time) (term string, key string, nontrivial bool, ok bool) {
+	p := &plugin{s: s, now: now}
+	desc := ocispec.Descriptor{MediaType: s.Desc.MT, Digest: digest.Digest(s.Desc.DG), Size: s.Desc.Size, Annotations: s.Desc.Ann,
+		URLs: []string{"https://dropped.by.sanitize"}}
+	ps, err := signer.NewPluginSigner(p, s.KeyID, map[string]string{"cfg": "1"})
+	if err != nil {
+		panic(err)
+	}
+	opts := notation.SignerSignOptions{SignatureMediaType: s.MT}
+	var sig []byte
+	var serr error
+	panicked := false
+	var dalg int64
+	func() {
+		defer func() {
+			if r := recover(); r != nil {
+				panicked = true
+				s.ErrMsg = fmt.Sprint("panic: ", r)
+			}
+		}()
+		if s.Blob {
+			sig, _, serr = ps.SignBlob(context.Background(), func(a digest.Algorithm) (ocispec.Descriptor, error) {
+				dalg = digestBits(a)
+				return desc, nil
+			}, opts)
+		} else {
+			sig, _, serr = ps.Sign(context.Background(), desc, opts)
+		}
+	}()
+
+	// ---- input term ----
+	_, mtErr := signature.NewEnvelope(s.MT)
+	meta := "MErr"
+	if !s.MetaErr {
+		meta = CApp("MCaps", CBool(s.CapRaw), CBool(s.CapEnv))
+	}
+	dk := "DKErr"
+	if !s.DKErr {
+		dk = CApp("DKAns", CStr(s.DKKeyID), CStr(s.DKSpec))
+	}
+	gs := "GSErr"
+	if !s.GSErr {
+		f := p.gs
+		if !f.called {
+			// the answer was never asked for: no facts exist (printed as all-false)
+			f = gsFacts{keyID: s.GSKeyID}
+		}
+		gs = CApp("GSAns", CApp("mk_gs", CStr(f.keyID), CBool(f.chainParse), CN(int64(f.chainLen)), CBool(f.sigEmpty), CBool(f.chainValid), coqAlgOpt(f.leafAlg), CBool(f.sigOK)))
+	}
+	ge := "GEErr"
+	var tree *jnode
+	payloadJSON := false
+	if !s.GEErr && p.ge.called && !p.ge.failed {
+		f := p.ge
+		pt := "None"
+		if f.verify {
+			t, valid, rep := readTree(f.payload)
+			if !rep {
+				return "", "", false, false
+			}
+			if valid {
+				tree = t
+				payloadJSON = true
+				pt = CSome(t.coq())
+			}
+		}
+		ge = CApp("GEAns", CApp("mk_ge", CStr(f.echo), CBool(f.parse), CBool(f.verify), CStr(f.ctype), pt))
+	} else if !s.GEErr && !p.ge.called {
+		// never asked: printed as an answer without facts
+		echo := s.GEEcho
+		if echo == "=" {
+			echo = s.MT
+		}
+		ge = CApp("GEAns", CApp("mk_ge", CStr(echo), "false", "false", CStr(""), "None"))
+	}
+	in := CApp("mk_input", CBool(s.Blob), CStr(s.MT), CBool(mtErr == nil), CStr(s.KeyID),
+		CStr(s.Desc.MT), CStr(s.Desc.DG), CZ(s.Desc.Size), coqAnn(s.Desc.Ann), meta, dk, gs, ge)
+
+	// ---- observation ----
+	var res string
+	switch {
+	case panicked:
+		res = "RPanic"
+		s.Result = "panic"
+	case serr != nil:
+		cls := classify(serr, p.ge.called)
+		res = CApp("RErr", cls)
+		s.Result = cls
+		s.ErrMsg = serr.Error()
+		if len(s.ErrMsg) > 300 {
+			s.ErrMsg = s.ErrMsg[:300]
+		}
+	default:
+		same := p.ge.called && bytes.Equal(sig, p.ge.envBytes)
+		rf := "None"
+		if !same {
+			rf = CSome(retFacts(s, sig, p))
+		}
+		res = CApp("RSig", CBool(same), rf)
+		s.Result = "signature"
+	}
+	gsreq := "None"
+	if p.gs.called {
+		gsreq = CSome(CPair(CStr(p.gs.reqKeySpec), CStr(p.gs.reqHash)))
+	}
+	ob := CApp("mk_obs", res, gsreq, CN(dalg))
+	term = CApp("mk_case", CN(id), in, ob)
+	// distinctness / non-triviality
+	k := *s
+	k.ErrMsg = ""
+	kb, _ := json.Marshal(k)
+	key = string(kb)
+	// non-trivial: the plugin answered the signing call (the decision depended on the checks)
+	nontrivial = (p.ge.called && !p.ge.failed) || (p.gs.called && !s.GSErr)
+	_ = payloadJSON
+	_ = tree
+	return term, key, nontrivial, true
+}
+
+// retFacts: what notation-core-go and the tree reader say about returned bytes
+// that are not the plugin's own envelope.
+func retFacts(s *script, sig []byte, p *plugin) string {
+	verifies, ctype := false, ""
+	var d ocispec.Descriptor
+	clean, chainIs := false, false
+	var a signature.Algorithm
+	if c, err := CoreVerify(s.MT, sig); err == nil {
+		verifies = true
+		ctype = c.Payload.ContentType
+		var pv payloadView
+		if json.Unmarshal(c.Payload.Content, &pv) == nil {
+			d = pv.TargetArtifact
+		}
+		if t, valid, _ := readTree(c.Payload.Content); valid {
+			clean = canonicalPayload(t)
+		}
+		a = c.SignerInfo.SignatureAlgorithm
+		if p.gs.called && len(c.SignerInfo.CertificateChain) == len(p.gs.chainDER) {
+			chainIs = true
+			for i, x := range c.SignerInfo.CertificateChain {
+				if !bytes.Equal(x.Raw, p.gs.chainDER[i]) {
+					chainIs = false
+				}
+			}
+		}
+	}
+	return CApp("mk_ret", CBool(verifies), CStr(ctype), CStr(d.MediaType), CStr(string(d.Digest)), CZ(d.Size), coqAnn(d.Annotations),
+		CBool(clean), CBool(chainIs), coqAlgOpt(a))
+}
+
+// ---------- scenarios ----------
+
+func baseScript(r *Rng, family string) *script {
+	s := &script{Family: family, MT: Pick(r, []string{MtJWS, MtCOSE}), KeyID: Pick(r, []string{"key1", "arn:key/2"}), Desc: genDesc(r)}
+	s.DKKeyID = s.KeyID
+	s.DKSpec = Pick(r, c18Specs)
+	s.GSErr, s.GEErr = true, true
+	return s
+}
+
+func envScript(r *Rng, family string) *script {
+	s := baseScript(r, family)
+	s.CapEnv = true
+	s.GEErr = false
+	s.GEEcho = "="
+	s.GEFormat = s.MT
+	s.GESigner = fmt.Sprintf("%s/%d", Pick(r, c18Specs), r.Intn(2))
+	s.GEChain = "own"
+	s.GECtype = MtPayload
+	return s
+}
+
+func rawScript(r *Rng, family string) *script {
+	s := baseScript(r, family)
+	s.CapRaw = true
+	s.CapEnv = r.Chance(1, 4)
+	s.GSErr = false
+	s.GSKeyID = s.KeyID
+	s.GSSigner = fmt.Sprintf("%s/%d", s.DKSpec, r.Intn(2))
+	s.GSChain = "own"
+	s.GSHash = "asked"
+	return s
+}
+
+func otherKeyID(r *Rng, k string) string {
+	return Pick(r, []string{k + "x", "", strings.ToUpper(k), "key2", k[1:]})
+}
+
+// family: payload edits on the envelope path
+func scenPayload(r *Rng, tier string) *script {
+	s := envScript(r, "envelope-payload")
+	n := 1
+	switch x := r.Intn(10); {
+	case x == 0:
+		n = 0
+	case x >= 7:
+		n = 2
+	}
+	tree, ops := genPayload(r, s.Desc, n)
+	s.Payload = string(tree.bytes())
+	s.Ops = ops
+	if r.Chance(1, 40) {
+		s.Payload = Pick(r, []string{`{"targetArtifact":`, `{"targetArtifact":{}} x`, `{'targetArtifact':1}`, "\x00\x01", `{"targetArtifact":{"size":01}}`})
+		s.Ops = []string{"not-json"}
+	}
+	if r.Chance(1, 12) {
+		s.Blob = true
+		if r.Chance(1, 4) {
+			s.DKKeyID = otherKeyID(r, s.KeyID)
+		}
+	}
+	return s
+}
+
+// family: envelope-level answers
+func scenEnvelope(r *Rng, tier string) *script {
+	s := envScript(r, "envelope-level")
+	if r.Chance(1, 3) {
+		tree, ops := genPayload(r, s.Desc, r.Intn(2))
+		s.Payload = string(tree.bytes())
+		s.Ops = ops
+	}
+	op := Pick(r, []string{"echo", "format", "ctype", "chain", "flip", "truncate", "garbage", "empty", "error", "reqtype", "honest", "selfsigned"})
+	s.Ops = append(s.Ops, op)
+	other := map[string]string{MtJWS: MtCOSE, MtCOSE: MtJWS}
+	switch op {
+	case "echo":
+		s.GEEcho = Pick(r, []string{other[s.MT], "", "application/jose", strings.ToUpper(s.MT), s.MT + " "})
+	case "format":
+		s.GEFormat = other[s.MT]
+		if r.Bool() {
+			s.GEEcho = other[s.MT]
+		}
+	case "ctype":
+		s.GECtype = Pick(r, []string{"application/vnd.cncf.notary.payload.v2+json", "application/json", "text/plain", strings.ToUpper(MtPayload), "x"})
+	case "chain":
+		s.GEChain = "other"
+	case "flip", "truncate", "garbage", "empty":
+		s.GECorrupt = op
+	case "error":
+		s.GEErr = true
+	case "reqtype":
+		s.MT = Pick(r, []string{"application/foo", "", "application/jose+json ", "APPLICATION/COSE"})
+		s.GEFormat = Pick(r, []string{MtJWS, MtCOSE})
+	case "selfsigned":
+		s.GESigner = "selfsigned"
+	}
+	return s
+}
+
+// family: raw-signature path
+func scenRaw(r *Rng, tier string) *script {
+	s := rawScript(r, "raw")
+	op := Pick(r, []string{"honest", "honest", "dk-keyid", "dk-spec", "dk-error", "gs-keyid", "gs-error", "chain", "chain", "chain", "hash", "corrupt", "spec-mismatch", "reqtype", "blob", "selfsigned"})
+	s.Ops = []string{op}
+	switch op {
+	case "dk-keyid":
+		s.DKKeyID = otherKeyID(r, s.KeyID)
+	case "dk-spec":
+		s.DKSpec = Pick(r, []string{"RSA-1024", "EC-512", "ec-256", "EC-256 ", "", "RSA-2048\x00", "RSA_2048", "ED25519"})
+		s.GSSigner = "EC-256/0"
+	case "dk-error":
+		s.DKErr = true
+	case "gs-keyid":
+		s.GSKeyID = otherKeyID(r, s.KeyID)
+	case "gs-error":
+		s.GSErr = true
+	case "chain":
+		s.GSChain = Pick(r, []string{"other", "otherspec", "leafonly", "rootonly", "reversed", "empty", "garbage", "expired"})
+		if s.GSChain == "expired" {
+			s.DKSpec, s.GSSigner = "EC-256", "EC-256/0"
+		}
+	case "hash":
+		s.GSHash = "other"
+	case "corrupt":
+		s.GSCorrupt = Pick(r, []string{"flip", "empty", "truncate"})
+	case "spec-mismatch":
+		// describe-key names one spec, the key that signs (and its chain) is of another
+		for {
+			o := Pick(r, c18Specs)
+			if o != s.DKSpec {
+				s.GSSigner = fmt.Sprintf("%s/%d", o, r.Intn(2))
+				break
+			}
+		}
+	case "reqtype":
+		s.MT = Pick(r, []string{"application/foo", "", "application/jose+json ", "APPLICATION/COSE"})
+	case "blob":
+		s.Blob = true
+	case "selfsigned":
+		s.DKSpec, s.GSSigner, s.GSChain = "EC-256", "selfsigned", "selfsigned"
+	}
+	if op != "blob" && r.Chance(1, 8) {
+		s.Blob = true
+	}
+	return s
+}
+
+// family: dispatch on metadata and capabilities, Sign and SignBlob
+func scenDispatch(r *Rng, tier string) *script {
+	var s *script
+	switch r.Intn(3) {
+	case 0:
+		s = envScript(r, "dispatch")
+	case 1:
+		s = rawScript(r, "dispatch")
+	default:
+		s = envScript(r, "dispatch")
+		s.GSErr = false
+		s.GSKeyID, s.GSSigner, s.GSChain, s.GSHash = s.KeyID, s.DKSpec+"/0", "own", "asked"
+	}
+	s.Family = "dispatch"
+	s.Blob = r.Bool()
+	switch r.Intn(6) {
+	case 0:
+		s.MetaErr = true
+	case 1:
+		s.CapRaw, s.CapEnv = false, false
+	case 2:
+		s.CapRaw, s.CapEnv = true, true
+	case 3:
+		s.DKErr = r.Bool()
+		if !s.DKErr {
+			s.DKKeyID = otherKeyID(r, s.KeyID)
+		}
+	case 4:
+		s.DKSpec = Pick(r, []string{"EC-512", "", "rsa-2048"})
+	}
+	return s
+}
+
+// ---------- corpus ----------
+
+type corpusFile struct {
+	Comment  string   `json:"comment"`
+	Payloads []string `json:"payloads"`
+}
+
+func corpusScripts(dir string) []*script {
+	var out []*script
+	files, _ := filepath.Glob(filepath.Join(dir, "*.json"))
+	sort.Strings(files)
+	d := reqDesc{MT: poolMT[0], DG: poolDG[0], Size: 528, Ann: map[string]string{"k": "v"}}
+	good := fmt.Sprintf(`"mediaType":%q,"digest":%q,"size":528,"annotations":{"k":"v"}`, d.MT, d.DG)
+	for _, f := range files {
+		b, err := os.ReadFile(f)
+		if err != nil {
+			continue
+		}
+		var cf corpusFile
+		if json.Unmarshal(b, &cf) != nil {
+			continue
+		}
+		for _, ptxt := range cf.Payloads {
+			ptxt = strings.ReplaceAll(ptxt, "$GOOD", good)
+			for _, mt := range []string{MtCOSE, MtJWS} {
+				s := &script{Family: "corpus", MT: mt, KeyID: "key1", Desc: d, CapEnv: true, DKKeyID: "key1", DKSpec: "EC-256",
+					GSErr: true, GEEcho: "=", GEFormat: mt, GESigner: "EC-256/0", GEChain: "own", GECtype: MtPayload, Payload: ptxt, Ops: []string{"corpus:" + filepath.Base(f)}}
+				out = append(out, s)
+			}
+		}
+	}
+	// the zero descriptor with the payload null (accepted: nothing differs from the request)
+	for _, mt := range []string{MtCOSE, MtJWS} {
+		out = append(out, &script{Family: "corpus", MT: mt, KeyID: "key1", Desc: reqDesc{}, CapEnv: true, DKKeyID: "key1", DKSpec: "EC-256",
+			GSErr: true, GEEcho: "=", GEFormat: mt, GESigner: "EC-256/0", GEChain: "own", GECtype: MtPayload, Payload: "null", Ops: []string{"corpus:zero-descriptor"}})
+	}
+	return out
+}
+
+func runC18(a *Args) error {
+	rng := NewRng(a.Seed)
+	now := time.Now()
+	loadIdentities(now)
+	prelude := "From NV Require Import Base C18_Json C18_Model.\nOpen Scope string_scope.\n"
+	w := NewCaseWriter(a, "C18", prelude, "case", "run")
+	w.Rule = "scripted plugin.SignPlugin with real keys for the six key specs (two keys each) driving the real signer.PluginSigner.Sign / SignBlob. Families: (corpus) hand-written payloads incl. \"TargetArtifact\", duplicated members, null; (envelope-payload) honest payload for a descriptor from a pool, changed by 0-2 of 23 edit operators (other digest/size/media type, literal forms of size, dropped/altered/added/duplicated/split/null annotations, unknown / differently spelled / optional / duplicated descriptor members, extra / differently spelled / duplicated payload members, unknown member hidden behind a duplicate, non-object payloads, non-JSON bytes), signed into a COSE envelope (notation-core-go, remote signer) or a hand-assembled JWS (payload bytes kept as they are), all six key specs; (envelope-level) wrong type echo, other real format, wrong content type, chain of another key, flipped / truncated / garbage / empty envelope, plugin error, unsupported requested type; (raw) describe-key and generate-signature answers: other key id, undecodable key spec, errors, chain of another key / another spec / leaf only / root only / reversed / empty / unparsable / expired / self-signed, wrong hash, flipped / empty / truncated signature, key of another spec than described; (dispatch) metadata error, no / both capabilities, Sign and SignBlob. The payload tree printed for the model is re-read token by token from the payload bytes the envelope really carries. non-trivial = the plugin answered the signing call (generate-envelope or generate-signature) so the outcome was decided by the signer's checks; distinct = distinct scripts"
+	w.Assumptions = []string{
+		"the JSON lexer is not modelled: the payload tree is re-read from the envelope's payload bytes by encoding/json's token reader (duplicates and order kept); member names are ASCII, no \"-0\" literal",
+		"facts about the plugin's bytes are asked from the dependencies in the same run: signature.ParseEnvelope / Envelope.Verify (notation-core-go), x509.ParseCertificate, notation-core-go x509.ValidateCodeSigningCertChain, signature.ExtractKeySpec, rsa.VerifyPSS / ecdsa.Verify over the bytes the signer asked to be signed",
+		"the raw path assumes notation-core-go's Envelope.Sign fails exactly on an empty signature, an empty / invalid code-signing chain or a leaf key whose algorithm differs from the key spec's, and Verify exactly on a signature that does not verify under the leaf key (validated by the correspondence)",
+		"error classes are recognised from stable message fragments of signer/plugin.go and the error types of notation-core-go",
+		"facts of a plugin call that the signer never made are printed as false",
+	}
+	type fam struct {
+		name   string
+		base   int64
+		quick  int
+		thor   int
+		gen    func(r *Rng, tier string) *script
+	}
+	fams := []fam{
+		{"envelope-payload", 10000, 1500, 60000, scenPayload},
+		{"envelope-level", 200000, 260, 6000, scenEnvelope},
+		{"raw", 300000, 520, 12000, scenRaw},
+		{"dispatch", 400000, 160, 3000, scenDispatch},
+	}
+	emit := func(id int64, s *script) {
+		term, key, nt, ok := runCase(id, s, now)
+		if !ok {
+			w.Count("skipped", "unrepresentable-payload")
+			return
+		}
+		w.Count("family", s.Family)
+		w.Count("result", s.Result)
+		w.Count("format", s.MT)
+		for _, o := range s.Ops {
+			w.Count("edit:"+s.Family, o)
+		}
+		if !s.GEErr && s.CapEnv && !s.CapRaw {
+			w.Count("envelope-signer", s.GESigner)
+		}
+		if s.CapRaw && !s.GSErr {
+			w.Count("raw-signer", s.GSSigner)
+		}
+		w.Add(id, term, s, key, nt)
+	}
+	for i, s := range corpusScripts(a.Corpus) {
+		id := int64(i)
+		if w.Want(id) {
+			emit(id, s)
+		}
+	}
+	for _, f := range fams {
+		n := f.quick
+		if a.Tier == "thorough" {
+			n = f.thor
+		}
+		for i := 0; i < n; i++ {
+			id := f.base + int64(i)
+			if !w.Want(id) {
+				continue
+			}
+			emit(id, f.gen(rng.Fork(uint64(id)), a.Tier))
+		}
+	}
+	return w.Close()
 }
